@@ -176,7 +176,9 @@ POINTER_DOC = {
     "digits": {"7" * 5000: "long-digit-key", "12": "twelve"},
     # member names from every part of Unicode are names like any other: beyond the BMP, controls, separators, noncharacters
     "uni": {"\U0001f44d": "thumbs-up", "\U00020bb7": "cjk-ext-b", "\U0001d4b3": "math-script", "\uffff": "bmp-last", "\U0010ffff": "last", "\x00": "nul",
-            "\x7f": "del", "\u2028": "line-sep", "\n": "newline", "\t": "tab", "\ud7ff": "before-surrogates", "\ue000": "private-use", "a\U0001f44db": "mixed"},
+            "\x7f": "del", "\u2028": "line-sep", "\n": "newline", "\t": "tab", "\ud7ff": "before-surrogates", "\ue000": "private-use", "a\U0001f44db": "mixed",
+            # json.loads('"\\ud83d"') is a one-character string holding a lone surrogate: a member name like any other
+            "\ud83d": "lone-high-surrogate", "x\udc00y": "lone-low-surrogate"},
 }
 POINTERS = ["", "/a", "/a/b", "/a/b/0", "/a/b/2/c", "/a/b/3", "/a/b/-1", "/a/b/01", "/a/b/1e0", "/a/b/ 1", "/a/b/+1", "/a/b/1.0", "/", "//", "/a~1b", "/m~0n",
             "/~01", "/~1", "/0", "/a%20b", "/a+b", "/%C3%A9", "/a%2Fb", "/arr/0/0", "/arr/1/0", "/arr/1", "/s/0", "/n/x", "/00", "/1e0", "/-1",
@@ -189,7 +191,9 @@ POINTERS = ["", "/a", "/a/b", "/a/b/0", "/a/b/2/c", "/a/b/3", "/a/b/-1", "/a/b/0
             "/nest/lvl/", "/nest/", "/nest/~00", "/nest/~0", "/nest/a~01b", "/nest/lvl///",
             "/digits/" + "7" * 5000, "/digits/12", "/digits/" + "7" * 4999, "/digits/012",
             "/uni/%F0%9F%91%8D", "/uni/\U0001f44d", "/uni/%F0%A0%AE%B7", "/uni/%F0%9D%92%B3", "/uni/%EF%BF%BF", "/uni/%F4%8F%BF%BF", "/uni/%00", "/uni/%7F",
-            "/uni/%E2%80%A8", "/uni/%0A", "/uni/%09", "/uni/%ED%9F%BF", "/uni/%EE%80%80", "/uni/a%F0%9F%91%8Db", "/uni/%F0%9F%91%8E"]
+            "/uni/%E2%80%A8", "/uni/%0A", "/uni/%09", "/uni/%ED%9F%BF", "/uni/%EE%80%80", "/uni/a%F0%9F%91%8Db", "/uni/%F0%9F%91%8E", "/uni/\ud83d", "/uni/x\udc00y", "/uni/\udc00",
+            # an array index is ASCII digits only, from the first character to the last
+            "/big/1\u0661", "/big/1\u0660", "/big/\u0661\u0660", "/big/\uff11", "/big/1\uff10", "/a/b/\uff11", "/big/1\u00b2", "/big/\u0967"]
 _MISSING = object()
 
 
